@@ -79,6 +79,29 @@ def _window_case(cs):
             for g, e in zip(got[node], exp[node]):
                 if g[0] != e[0] or abs(g[1] - e[1]) > 1e-9 or abs(g[2] - e[2]) > 1e-9:
                     return ("diff", "node %d: window (ref, upper, lower) = %s, specification %s" % (node, g, e))
+        # how the walk applies a window: the candidate is accepted iff its MINIMUM-IMAGE distance to the reference residue lies in
+        # [lower, upper] - probed with the reference next to a box face and candidates on either side of it (one set across the face)
+        if cs["kind"] == "window":
+            from polyply.src.random_walk import RandomWalk
+            L = 20.0
+            for node in exp:
+                ref, up, lo = exp[node][0]
+                try:
+                    nb.add_positions(np.array([0.3, 10.0, 10.0]), 0, ref, start=True)
+                    rw = RandomWalk(0, nb, maxdim=np.array([L, L, L]))
+                    rw.molecule = mol
+                    for r in (lo - 0.03, lo + 0.03, 0.5 * (lo + up), up - 0.03, up + 0.03):
+                        if r <= 0.01:
+                            continue
+                        for sign in (1.0, -1.0):
+                            cand = np.array([(0.3 + sign * r) % L, 10.0, 10.0])
+                            res = bool(rw.checks_milestones(node, cand))
+                            if res != (lo <= r <= up):
+                                return ("diff", "node %d, window [%.3f, %.3f] around residue %d at x=0.3: candidate at minimum-image distance %.3f (x=%.3f) %s"
+                                        % (node, lo, up, ref, r, cand[0], "accepted" if res else "rejected"))
+                    nb.remove_positions(0, [ref])
+                except Exception as exc:
+                    return ("diff", "exception while applying the window of node %d: %s: %s" % (node, type(exc).__name__, exc))
     return ("ok", None)
 
 
